@@ -72,14 +72,36 @@ pub struct PredOpts<'a> {
     pub allow_or: bool,
     pub allow_colcol: bool,
     pub allow_arith: bool,
+    /// < <= > >= on string columns (fails on the engine whenever the constant is absent from a
+    /// partition's dictionary: F7)
+    pub allow_str_order: bool,
+    /// constants of magnitude >= 2^62 (overflow in the constant's translation into the column's
+    /// offset encoding)
+    pub allow_huge_const: bool,
+    pub allow_is_null: bool,
+}
+
+fn tame(v: V, o: &PredOpts) -> V {
+    match v {
+        V::Int(k) if !o.allow_huge_const && k.unsigned_abs() >= 1 << 61 => V::Int(k / (1 << 20)),
+        other => other,
+    }
+}
+
+fn pick_cmp(r: &mut Rng, kind: Kind, o: &PredOpts) -> &'static str {
+    if kind == Kind::Str && !o.allow_str_order {
+        *r.pick(&["eq", "ne"])
+    } else {
+        *r.pick(&CMP)
+    }
 }
 
 pub fn gen_leaf(r: &mut Rng, t: &Table, o: &PredOpts) -> Expr {
     let c = *r.pick(o.cols);
     let kind = t.cols[c].kind;
     match r.below(12) {
-        0 => Expr::IsNull(Box::new(Expr::Col(c))),
-        1 => Expr::IsNotNull(Box::new(Expr::Col(c))),
+        0 if o.allow_is_null => Expr::IsNull(Box::new(Expr::Col(c))),
+        1 if o.allow_is_null => Expr::IsNotNull(Box::new(Expr::Col(c))),
         2 if o.allow_like && kind == Kind::Str => {
             let k = gen_const(r, t, c);
             let base = if let V::Str(s) = k { String::from_utf8(s).unwrap() } else { String::new() };
@@ -98,9 +120,9 @@ pub fn gen_leaf(r: &mut Rng, t: &Table, o: &PredOpts) -> Expr {
             // column against another column of the same type
             let same: Vec<usize> = o.cols.iter().copied().filter(|d| *d != c && t.cols[*d].kind == kind).collect();
             if same.is_empty() {
-                Expr::cmp(*r.pick(&CMP), Expr::Col(c), Expr::Const(gen_const(r, t, c)))
+                Expr::cmp(pick_cmp(r, kind, o), Expr::Col(c), Expr::Const(tame(gen_const(r, t, c), o)))
             } else {
-                Expr::cmp(*r.pick(&CMP), Expr::Col(c), Expr::Col(*r.pick(&same)))
+                Expr::cmp(pick_cmp(r, kind, o), Expr::Col(c), Expr::Col(*r.pick(&same)))
             }
         }
         4 if o.allow_arith && kind == Kind::Int => {
@@ -110,14 +132,14 @@ pub fn gen_leaf(r: &mut Rng, t: &Table, o: &PredOpts) -> Expr {
             Expr::cmp(
                 *r.pick(&CMP),
                 Expr::arith(op, Expr::Col(c), Expr::int(k)),
-                Expr::Const(gen_const(r, t, c)),
+                Expr::Const(tame(gen_const(r, t, c), o)),
             )
         }
         5 => {
             // constant on the left
-            Expr::cmp(*r.pick(&CMP), Expr::Const(gen_const(r, t, c)), Expr::Col(c))
+            Expr::cmp(pick_cmp(r, kind, o), Expr::Const(tame(gen_const(r, t, c), o)), Expr::Col(c))
         }
-        _ => Expr::cmp(*r.pick(&CMP), Expr::Col(c), Expr::Const(gen_const(r, t, c))),
+        _ => Expr::cmp(pick_cmp(r, kind, o), Expr::Col(c), Expr::Const(tame(gen_const(r, t, c), o))),
     }
 }
 
